@@ -533,6 +533,15 @@ func checkInterest(val *Interest, context *InterestParsingContext) error {
 	if val.SignatureValue != nil && val.ApplicationParameters == nil {
 		return enc.ErrIncorrectDigest
 	}
+	if val.ApplicationParameters == nil {
+		// A parameters digest in the name vouches for parameters: without them it vouches for nothing
+		// (e.g. the ApplicationParameters element was damaged into an unrecognized, skipped one)
+		for _, c := range val.NameV {
+			if c.Typ == enc.TypeParametersSha256DigestComponent {
+				return enc.ErrIncorrectDigest
+			}
+		}
+	}
 	if val.ApplicationParameters != nil {
 		// Check digest
 		name := val.NameV
